@@ -3,8 +3,8 @@ import itertools, random
 from .. import core, hist, world as W
 from .c01 import handles_ok, fix_disagreements
 
-MODULES = ['DsdVerif.Props.C04', 'DsdVerif.Props.PyDomain', 'DsdVerif.Props.PyDomain2', 'DsdVerif.Props.PyDomain3', 'DsdVerif.Props.PyMembers']
-GEN_FILES = ['PyExprs', 'PyDomain', 'PySingleton', 'PyMembers']
+MODULES = ['DsdVerif.Props.C04', 'DsdVerif.Props.PyDomain', 'DsdVerif.Props.PyDomain2', 'DsdVerif.Props.PyDomain3', 'DsdVerif.Props.PyMembers', 'DsdVerif.Props.PyDomain4', 'DsdVerif.Props.PyMembers2']
+GEN_FILES = ['PyExprs', 'PyDomain', 'PySingleton', 'PyMembers', 'PyMembers2']
 THEOREM_NAMES = ['domwf_init', 'domwf_request', 'domwf_drop', 'domwf_invert', 'complement_lengths_agree', 'conflict_raises',
                  'invert_involutive', 'dtype_rule', 'dtype_default_lengths', 'dtype_length_contradiction',
                  # the full model of DomainS.identifiers with its nested requests and temporary objects (Model/DomainFull.lean)
@@ -23,6 +23,10 @@ THEOREMS = ['Dsd.C04.' + t for t in THEOREM_NAMES] + ['Dsd.PyExprs.py_dtype_eq_m
 THEOREMS += ['Dsd.PyDomain3.' + t for t in ['py_identifiers_unstarred_length', 'py_identifiers_starred_nolength', 'py_identifiers_auto_name', 'py_identifiers_dtype_default']]
 # the small DomainS members as written in the source (translator/pymembers.py -> Gen/PyMembers.lean): dtype rule, cname involution, ~d requests (cname, same length), bool(d) is length != 0
 THEOREMS += ['Dsd.PyMembers.' + t for t in ['py_name_eq', 'py_length_eq', 'py_len_eq', 'py_domain_truth_value', 'py_zero_length_domain_falsy', 'py_dtype_eq_expr', 'py_dtype_eq_model', 'py_dtype_rule', 'py_is_complement_iff', 'py_empty_name_raises', 'py_cname_eq', 'py_cname_involutive', 'py_cname_star_not_involutive', 'py_complement_requests', 'py_invert_requests']]
+# the last identifiers case (dtype with a consistent length) and the ingredients of the whole-request theorem: the request the stream runs, the translated Singleton.__call__ inside it, registration
+THEOREMS += ['Dsd.PyDomain4.' + t for t in ['py_identifiers_dtype_consistent', 'py_requestPy_eq_driver', 'py_repX_rep', 'py_zoom_call', 'py_register_eq']]
+# the whole DomainS.__init__ as written in the source: the name identifiers derived, ID + 1 exactly when no name was given, empty prefix is not None
+THEOREMS += ['Dsd.PyMembers2.' + t for t in ['py_domain_init_eq', 'py_domain_init_after_identifiers', 'py_domain_init_empty_prefix', 'py_domain_init_default_length']]
 ASSUMPTIONS = [
     'DomainS.identifiers is hand-modelled by its net effect (Model/Objects.lean: domainRequest); the temporary complement objects it '
     'creates and drops are modelled separately (Model/DomainFull.lean) and proved to have this net effect (Props/C04Full.lean)',
@@ -220,6 +224,8 @@ def run(res, proof):
     core.run_stream(source_derived_pydomain, res, proof)
     from .pymembers_stream import source_derived_pymembers
     core.run_stream(source_derived_pymembers, res, proof)
+    from .pymembers2_stream import source_derived_pymembers2
+    core.run_stream(source_derived_pymembers2, res, proof)
 
 
 def replay(body, repo):
